@@ -23,3 +23,41 @@ claim("C10",
       "Does not decide byte equality of HDF5 datasets, torn writes inside libhdf5, or that the restored tensors are numerically "
       "sufficient to reproduce the trajectory. Trusted: CFG builder, key-flow inference, os.replace atomicity.",
       "DESIGN.md section 4, C10")
+
+claim("C08",
+      "CFG event-word typestate of all integrator steps + sympy normal form of event coefficients + constant analysis of unit constants + def/use freshness on the run loop",
+      "Decides that every path of each of the five step implementations is T?-K-D-E-A-K-T? with exactly the velocity-Verlet "
+      "coefficients (the shape that makes the scheme symmetric, second order and reversible), that the unit constants are "
+      "mutually reciprocal and equal CODATA to 1e-6, that Ek/T/V handed to every writer are recomputed after the last velocity "
+      "mutation of the iteration on every path, that whole-batch values are written under the right molecule id, that the COM "
+      "projection uses COM-relative positions and restores kinetic energy, and inventories every write to the phase-space state.",
+      "Does not decide measured order, reversibility error, drift or momentum conservation of the force field itself (Newton's "
+      "third law is C01-R4). Trusted: event recognition by attribute name on `molecule`, sympy, embedded CODATA values.",
+      "DESIGN.md section 4, C08")
+
+claim("C09",
+      "constant analysis of the literal coefficient table against the published table + root locus; constant propagation of the coefficient "
+      "block; linear-form extraction of every propagate variant; integer re-interpretation of the circular-buffer index expressions; sympy identity for E(D,P)",
+      "Exhaustive over k=3..9 and over every buffer/restart phase for m=4..10: table = Niklasson Table I, sum c = 0, root locus "
+      "inside the unit disk for kappa_eff in (0,kappa]; the coefficients actually built and every propagate variant reproduce a "
+      "stationary density; slot/coefficient age pairing, oldest-slot overwrite and restart read are consistent; shadow energy "
+      "reduces to the SCF energy at D=P.",
+      "Does not decide the rank-m kernel numerics, Fermi-operator expansion or measured drift. Trusted: embedded published table, numpy.roots, sympy.",
+      "DESIGN.md section 4, C09")
+
+claim("C12",
+      "expression algebra (sympy) on the def-chain of the thermostat coefficients + CFG event words for O-step placement",
+      "Decides the fluctuation-dissipation identity c1^2 + c2^2/(k_B T/m) = 1 identically in dt, damp, T and mass, c1 = exp(-dt/2damp), "
+      "the limits damp->inf and T=0, the exact shape of the O-step (fresh unit normal per component, global generator) and its "
+      "placement as first and last event of every thermostatted path under one condition, and the degrees-of-freedom accounting.",
+      "Does not decide the long-run mean temperature (statistical). Trusted: sympy, torch.randn_like semantics.",
+      "DESIGN.md section 4, C12")
+
+claim("C13",
+      "CFG reachability with transitive mod-ref on velocities, dominance of seeding, sympy check of the draw/rescale chain, ZeroOnPad abstract interpretation",
+      "Decides that user velocities reach step 0 untouched on every path, that the seed dominates initialisation and the loop with "
+      "the caller's value and nothing else re-seeds, the exact-rescale chain of the Maxwell-Boltzmann draw, that every in-place "
+      "velocity update adds a value that is zero on padding rows, and the COM-removal mode validation / momentum expressions / "
+      "kinetic-energy restoration.",
+      "Does not decide the realised temperature or momenta magnitudes. Assumes mass, mass_inverse and force are zero on padding rows.",
+      "DESIGN.md section 4, C13")
